@@ -46,9 +46,10 @@ pub const CHOICES: [Choice; 10] = [
     Choice::SubstAndRecAttr,
 ];
 
-/// known: p::a::K, p::b::L;  unknown: a::K (a proper suffix of a known path), p::a::Z, and (thorough tier)
+/// known: p::a::K, p::r#type::L;  unknown: a::K (a proper suffix of a known path), p::a::Z, and (thorough tier)
 /// p::b::L::X (a known path is its proper prefix)
-pub const PATHS: [&str; 5] = ["p::a::K", "p::b::L", "a::K", "p::a::Z", "p::b::L::X"];
+/// (the module of L is named with a raw identifier, as `mod r#type` is recorded by scale-info)
+pub const PATHS: [&str; 5] = ["p::a::K", "p::r#type::L", "a::K", "p::a::Z", "p::r#type::L::X"];
 const D1: &str = "::d::One";
 const D2: &str = "::d::Two";
 const A1: &str = "#[a1]";
@@ -67,7 +68,7 @@ pub struct ValState {
 fn registry(reg_size: u8) -> PortableRegistry {
     let mut defs = vec![
         Def::strukt(&["p", "a"], "K", &[], named(vec![("v", U8)])),
-        Def::strukt(&["p", "b"], "L", &[], unnamed(vec![U16])),
+        Def::strukt(&["p", "r#type"], "L", &[], unnamed(vec![U16])),
         Def::strukt(&["p", "a", "Z2"], "M", &[], Fields::Unit),
     ];
     defs.truncate(reg_size as usize);
@@ -95,13 +96,13 @@ fn spec_of(s: &ValState) -> SettingsSpec {
                 sp.derives_for.push((p.clone(), vec![D1.into()], true));
                 sp.attrs_for.push((p, vec![A2.into()], true));
             }
-            Choice::Substitute => sp.substitutes.push((p.clone(), format!("::t::{}", p.replace("::", "_")))),
+            Choice::Substitute => sp.substitutes.push((p.clone(), format!("::t::{}", p.replace("::", "_").replace("r#", "")))),
             Choice::SubstAndSpecDerive => {
-                sp.substitutes.push((p.clone(), format!("::t::{}", p.replace("::", "_"))));
+                sp.substitutes.push((p.clone(), format!("::t::{}", p.replace("::", "_").replace("r#", ""))));
                 sp.derives_for.push((p, vec![D1.into()], false));
             }
             Choice::SubstAndRecAttr => {
-                sp.substitutes.push((p.clone(), format!("::t::{}", p.replace("::", "_"))));
+                sp.substitutes.push((p.clone(), format!("::t::{}", p.replace("::", "_").replace("r#", ""))));
                 sp.attrs_for.push((p, vec![A2.into()], true));
             }
         }
@@ -149,7 +150,7 @@ fn model(s: &ValState, reg: &PortableRegistry) -> Model {
             _ => {}
         }
         if matches!(c, Choice::Substitute | Choice::SubstAndSpecDerive | Choice::SubstAndRecAttr) {
-            sub.insert(p.clone(), squash(&format!("::t::{}", p.replace("::", "_"))));
+            sub.insert(p.clone(), squash(&format!("::t::{}", p.replace("::", "_").replace("r#", ""))));
         }
     }
     (d, a, sub)
